@@ -517,6 +517,10 @@ func (i *Interface) Delete(key string) error {
 
 	i.options.Apply(r)
 	r.Meta().Delete()
+
+	// Remove the record from the cache, it would be served from there otherwise.
+	i.updateCache(r, false, true, 0)
+
 	return db.Put(r)
 }
 
